@@ -30,17 +30,18 @@ def dispatch_table(o, disp):
 
 
 def nodal_imbalance(o, disp, tol=1e-6):
-    """list of (node, step, sum) where the reported dispatch does not balance"""
+    """list of (node, step, sum) where the reported dispatch does not balance.  A solver meets its rows up to a tolerance relative to the
+    magnitude of the whole problem, so the largest reported flow sets the scale (a tolerance relative to the flows of the node alone alarms
+    on badly scaled but correctly solved problems)"""
     bad = []
+    scale = 1.0
+    for v in disp.values():
+        for e in v:
+            if e is not None:
+                scale = max(scale, abs(e))
     for n in o['nodes']:
         cols = [colname(o, a['name'], n) for a in o['assets'] if n in a['nodes']]
         cols = [c for c in cols if c in disp]
-        # the flows of this node set the scale (a node fed through a tiny conversion factor is not judged by the flows elsewhere)
-        scale = 1.0
-        for c in cols:
-            for e in disp[c]:
-                if e is not None:
-                    scale = max(scale, abs(e))
         for t in range(o['T']):
             s = sum((disp[c][t] or 0.0) for c in cols)
             if abs(s) > tol * scale:
